@@ -267,8 +267,12 @@ func init() {
 				if len(sites) > 0 {
 					pos = c.P.Pos(sites[0].Call.Pos())
 				}
-				if len(sites) != pt.Count {
+				if len(sites) < pt.Count {
 					s.Bad(key+"/count", pos, fmt.Sprintf("%d failure-flagged sites, the standard has %d (%s)", len(sites), pt.Count, pt.Spec), pt.Props...)
+				} else if len(sites) > pt.Count {
+					// the same failure written at more places (a disjunction split into guard clauses): every site is still
+					// checked below; where it may fail is SM-transitions' and TAB-thresholds' business
+					s.OK(key+"/count", pos, fmt.Sprintf("%d sites for the standard's %d failure point(s): %s", len(sites), pt.Count, pt.Spec), pt.Props...)
 				} else {
 					s.OK(key+"/count", pos, fmt.Sprintf("%d failure point(s): %s", pt.Count, pt.Spec), pt.Props...)
 				}
@@ -986,6 +990,10 @@ func init() {
 								if h.Taken == triT && h.Site.FailKnown && h.Site.Failure {
 									failed = true
 								}
+							}
+							if !wrote && !p.Returned && p.Next == "" {
+								// the state merely consumes the code point and stays: not a decision about the component
+								continue
 							}
 							switch {
 							case wrote:
